@@ -46,7 +46,12 @@ def projectionMismatches (x : Ext) (cfg : TableCfg) (ops : List StoreOp) (includ
     List (Key × Nat) :=
   let st := runStore x cfg ops
   let scan := st.iterate cfg cfg.fields includeMem
-  let keys := ((st.file.getD []).map (·.key) ++ st.mem.map (·.key)).eraseDups
+  -- every key the script ever addressed (also those whose rows have expired and were dropped:
+  -- their column must read `none`), plus whatever the final store holds
+  let scriptKeys := ops.filterMap (fun op => match op with
+    | .ingest p => some (reslice cfg p.dims)
+    | .flush _ => none)
+  let keys := (scriptKeys ++ (st.file.getD []).map (·.key) ++ st.mem.map (·.key)).eraseDups
   keys.flatMap (fun key =>
     (cfg.fields.zipIdx).filterMap (fun (f, i) =>
       let ccfg : ColCfg := { e := f.ex, res := cfg.res, retention := cfg.retention }
